@@ -8,6 +8,8 @@ boundary (text length dmax-2 .. dmax+2, padding that overruns, %s / %ls argument
 calling check on every observation:
 
   C01  no signal from a store at/after dest+dmax, nothing changed in front of dest
+  C02  a %.Ns / %.Nls / %.*s / %.*ls argument that is an array of exactly N characters WITHOUT a terminator, its end flush
+       against a PROT_NONE page (the precision is the only bound C gives): no read fault, in locale C and C.UTF-8
   C03  dmax > 0 and the call returned: a NUL among the dmax cells
   C04  a failed call: dest[0] == 0, and (null-slack build) all dmax cells zero
   C05  handler calls: 0 on success; exactly 1 on failure, with the code returned (-ret)
@@ -164,6 +166,54 @@ def woracle(pid, fn, dm, dc, slack):
     return out
 
 
+def c02_lines():
+    """(fn, conversion, N, extra) cases: the argument holds exactly N characters"""
+    lines = []
+    n = 0
+    for fn in BUF + ["fprintf_s", "vfprintf_s", "printf_s"]:
+        for N in (1, 2, 3, 7, 32, 33, 100):
+            for wide in (False, True):
+                for star in (False, True):
+                    for pre in (b"", b"ab"):
+                        conv = ("%.*" if star else "%%.%d" % N) + ("ls" if wide else "s")
+                        fmt = pre + conv.encode() + b"!"
+                        if wide:
+                            arg = "W:" + "".join("%08x" % (0x61 + i % 26) for i in range(N))
+                        else:
+                            arg = "S:" + bytes(0x61 + i % 26 for i in range(N)).hex()
+                        args = (["i:%d" % N] if star else []) + [arg]
+                        dmax = N + 40 if fn in BUF else 0
+                        lines.append((n, fn, "id=%d fn=%s dmax=%d fmt=%s args=%s noref=1" % (n, fn, dmax, fmt.hex(), ",".join(args)),
+                                      "%s(%r, array of exactly %d %s)" % (fn, fmt, N, "wchar_t" if wide else "char")))
+                        n += 1
+    return lines
+
+
+def run_c02(res, known, tier):
+    pid = "C02"
+    cl = c02_lines()
+    import p11
+    for slack in (1, 0):
+        L = buildlib.build(slack=bool(slack))
+        hbin = buildlib.build_harness(L, os.path.join(VERIF, "harness", "hprintf.c"), os.path.join(L["dir"], "hprintf"))
+        for loc in ("C", "C.UTF-8"):
+            ci = p11.run_parallel([hbin, loc], [x[2] for x in cl], workers=8)
+            for (i, fn, line, desc) in cl:
+                dc = ci.get(str(i))
+                if dc is None or "err" in dc:
+                    continue
+                res.evaluations += 1
+                res.unmodelled.add(fn)
+                res.count("fmtstage", "%s/%s/slack=%d" % (fn, loc, slack))
+                if dc.get("sig", "0") == "0":
+                    res.distinct.add(("c02fmt", i, loc, slack))
+                elif dc.get("fo") == "arg":
+                    record(res, pid, known, slack, fn, "%s:rfault@arg+N:%s" % (fn, "ls" if "6c73" in line else "s"),
+                           "read fault behind the N characters of the argument (locale %s)" % loc,
+                           dict(desc=desc + " locale " + loc, h=line, loc=loc, impl={k: v[:200] for k, v in dc.items()}))
+        log("  C02 fmtstage slack=%d: %d cases x 2 locales" % (slack, len(cl)))
+
+
 def record(res, pid, known, slack, fn, sig, detail, rep):
     ent = next((e for e in known if orch.known_match(e, pid, sig, slack)), None)
     if ent is not None:
@@ -177,6 +227,8 @@ def record(res, pid, known, slack, fn, sig, detail, rep):
 
 
 def run(pid, res, tier, seed, known):
+    if pid == "C02":
+        return run_c02(res, known, tier)
     if pid not in ("C01", "C03", "C04", "C05", "C08"):
         return
     import p11
